@@ -128,7 +128,9 @@ pub fn gen_case(rng: &mut Rng, n: usize, real: bool, class: u64) -> Case {
         3 => { let mut c: Vec<Cmplx> = (0..=n).map(|_| if rng.chance(0.5) { z0 } else { rc(rng, 1.0) }).collect(); c[n] = nzlead(rng); Case { coeffs: c, real, class: "vanishing-inner", known_roots: None } }
         4 => { let r = separated_roots(rng, n, real); if r.len() < n { return gen_case(rng, n, real, 0); } let lead = Cmplx::new(*rng.pick(&[1.0, -1.0, 2.0, 0.5]), 0.0); Case { coeffs: expand(&r, lead), real, class: "well-separated", known_roots: Some(r) } }
         5 => { // repeated roots
-            let base = separated_roots(rng, (n + 1) / 2, real); let mut r = vec![]; while r.len() < n { for b in &base { if r.len() < n { r.push(*b); } } }
+            // (a quarter of the time a single n-fold root: exact data, so the closed forms meet their exactly-degenerate branches)
+            let nb = if rng.chance(0.25) { 1 } else if rng.chance(0.2) { 2.min(n) } else { (n + 1) / 2 };
+            let base = separated_roots(rng, nb, real); let mut r = vec![]; while r.len() < n { for b in &base { if r.len() < n { r.push(*b); } } }
             if real { let im: f64 = r.iter().map(|z| z.imag).sum(); if im != 0.0 { return gen_case(rng, n, real, 0); } }
             Case { coeffs: expand(&r, Cmplx::new(1.0, 0.0)), real, class: "repeated", known_roots: None } }
         6 => { // clusters 1e-3 apart
